@@ -19,7 +19,8 @@ PROP = dict(
         H(NP, "c25", "c25_auth_encoder", 'hand-assembled authenticator + ghost log == real ExtensionField::encode_encrypted with ModelCipher (request and response)', tier="thorough", timeout_thorough=3600),  # measured 342 s CBMC under load
         H(NP, "c25", "c25_req_uid_body", 'request, tampered byte in 52..60', timeout=900),  # measured 425 s CBMC under load
         H(NP, "c25", "c25_req_auth_body", 'request, tampered byte in 80..112', tier="thorough", timeout_thorough=3600),  # measured 398 s CBMC under load
-    ],
+        H("ntp_proto_h", "c23f", "c23_encrypted_field_frame", "function level: RawEncryptedField::from_message_bytes (the framing of an NTS encrypted field body, run in every key context before any key lookup) is total and exact for every body of up to 32 bytes with symbolic nonce/ciphertext length words", timeout=300),
+],
     # prepared in the harness crate but NOT registered (did not finish / not re-verified in time / expected to fail):
     # c25_untampered, c25_req_real_serializer, c25_resp_real_serializer, c25_req_trailer_accept, c25_resp_trailer_accept, c25_req_header, c25_req_uid_hdr, c25_req_cookie_hdr, c25_req_cookie_body, c25_req_auth_words, c25_req_trailer, c25_resp_header, c25_resp_uid_hdr, c25_resp_uid_body, c25_resp_auth_words, c25_resp_auth_body, c25_resp_trailer
 )
